@@ -51,6 +51,8 @@ type Step struct {
 	Lease   bool     `json:"lease"`
 	SyncID  string   `json:"syncid"`
 	View    [][3]int `json:"view"`
+	AtMs    float64  `json:"at_ms"`  // diagnostics: time since the oldest possibly-live lease timer was created
+	LeaseMs int      `json:"lease_ms"`
 }
 
 type Obs struct {
@@ -232,6 +234,7 @@ func runOnce(c Case, dir string) (obs Obs, taint bool) {
 				obs.Outcome, obs.Detail = "setup-error", err.Error()
 				return
 			}
+			st.AtMs, st.LeaseMs = float64(time.Since(segStart).Microseconds())/1000, c.LeaseMs
 			obs.Steps = append(obs.Steps, st)
 			lastEnd = time.Now()
 			if inSeg && lastEnd.Sub(segStart) > timeout*85/100 {
@@ -283,6 +286,7 @@ func runOnce(c Case, dir string) (obs Obs, taint bool) {
 				obs.Outcome, obs.Detail = "setup-error", err.Error()
 				return
 			}
+			st.AtMs, st.LeaseMs = float64(time.Since(segStart).Microseconds())/1000, c.LeaseMs
 			obs.Steps = append(obs.Steps, st)
 			lastEnd = time.Now()
 			if inSeg && lastEnd.Sub(segStart) > timeout*85/100 {
@@ -318,6 +322,7 @@ func runOnce(c Case, dir string) (obs Obs, taint bool) {
 				obs.Outcome, obs.Detail = "setup-error", err.Error()
 				return
 			}
+			st.AtMs, st.LeaseMs = float64(time.Since(segStart).Microseconds())/1000, c.LeaseMs
 			obs.Steps = append(obs.Steps, st)
 			lastEnd = time.Now()
 			continue
@@ -423,6 +428,7 @@ func runOnce(c Case, dir string) (obs Obs, taint bool) {
 			obs.Outcome, obs.Detail = "setup-error", err.Error()
 			return
 		}
+		st.AtMs, st.LeaseMs = float64(time.Since(segStart).Microseconds())/1000, c.LeaseMs
 		obs.Steps = append(obs.Steps, st)
 		lastEnd = time.Now()
 		if lastEnd.Sub(segStart) > timeout*85/100 {
